@@ -103,6 +103,14 @@ def parseTemporal? (a : List String) : Option Temporal :=
     pure { kind := kind, t := t }
   | _ => none
 
+/-- the hashed tuple element by element: `(a,b)` / `-` for the weekday, decimal / `-` for the rest -/
+def showHashList (l : List HashElt) : String :=
+  " ".intercalate (l.map (fun e => match e with
+    | .wd none => "-"
+    | .wd (some (a, b)) => s!"({a},{b})"
+    | .int i => toString i
+    | .opt o => showOptInt o))
+
 def showHash (h : Option (Int × Int) × List Int × List (Option Int)) : String :=
   let w := match h.1 with
     | none => "-"
@@ -201,7 +209,7 @@ def handleGen (op : String) (args : List String) : Option String :=
   | "rdgen.mk" => (parseKw? args).map (fun k => Py.showR showRD (Gen.initKw k))
   | "rdgen.expr" => (evalRPNGen args []).map (Py.showR showRD)
   | "rdgen.bool" => (parseRD? args).map (fun d => Py.showR showBool (Gen.bool d))
-  | "rdgen.hash" => (parseRD? args).map (fun d => Py.showR showHash (Gen.hashKey d))
+  | "rdgen.hash" => (parseRD? args).map (fun d => Py.showR showHashList (Gen.hashKey d))
   | "rdgen.eq" => do
       let a ← parseRD? (args.take 18)
       let b ← parseRD? (args.drop 18)
@@ -260,7 +268,7 @@ def handle (op : String) (args : List String) : Option String :=
   | "rd.mk" => (parseKw? args).map (fun k => Py.showR showRD (mk k))
   | "rd.expr" => (evalRPN args []).map (Py.showR showRD)
   | "rd.bool" => (parseRD? args).map (fun d => "ok " ++ showBool (RDM.bool d))
-  | "rd.hash" => (parseRD? args).map (fun d => "ok " ++ showHash (hashKey d))
+  | "rd.hash" => (parseRD? args).map (fun d => "ok " ++ showHashList (hashList d))
   | "rd.eq" => do
       let a ← parseRD? (args.take 18)
       let b ← parseRD? (args.drop 18)
